@@ -33,12 +33,14 @@ META = dict(
     technique="explicit-state search over all operation histories (buffer views, index/slice reads and writes, "
               "from_buffer, memmove) on real memory in lock-step with a Python bytearray as reference model",
     text="From four kinds of 12-byte memory (bytearray, array.array, ffi.new, a canary-guarded window): every single "
-         "operation of the full alphabet, including ffi.memmove for all 819 (dst offset, src offset, n) triples x 12 "
-         "pairings of cdata / Python buffer / cffi buffer / bytes; all histories of length 2 with at most one "
-         "operation outside a ~45-operation core alphabet; all histories of length 3 over the core (thorough: "
-         "deeper and wider, with state merging only beyond the reported d0).  Slice bounds straddle the clamping "
-         "comparisons of mb_slice/mb_ass_slice (None, -n-1, -1, 0, 3, n, n+1, 2**63); from_buffer windows of 12, "
-         "8, 7, 5 and 0 bytes straddle the rounding and the fixed-size check of direct_from_buffer.",
+         "operation of the full alphabet (10.4k operations, including ffi.memmove for all 819 (dst offset, src offset, "
+         "n) triples x 12 pairings of cdata / Python buffer / cffi buffer / bytes); quick = all histories of length 2 "
+         "with at most one operation outside a 43-operation core alphabet (113-operation alphabet) and the core "
+         "alphabet to depth 3 (merging beyond depth 1); thorough = length 2 with one operation from the full alphabet, "
+         "length 3 with one operation from the 113-operation alphabet, all core triples (no merging), core to depth 4 "
+         "with merging beyond depth 2.  Slice bounds straddle the clamping comparisons of mb_slice/mb_ass_slice "
+         "(None, -n-1, -1, 0, 3, n, n+1, +-2**63); from_buffer windows of 12, 8, 7, 5 and 0 bytes straddle the "
+         "rounding and the fixed-size check of direct_from_buffer.",
     note="Python's bytearray is the oracle for index/slice semantics; 'len(obj)' in the statement is read as the "
          "byte length of obj's buffer (array.array('H') of 6 items = 12 bytes); extended slices (step != 1) are "
          "not compared")
@@ -85,15 +87,30 @@ def _dedupe(seq):
 _OPS_CACHE = {}
 
 
+_GEN_CACHE = {}
+BUF_WINDOWS = [(0, 12), (0, 0), (0, 5), (3, 5), (7, 5), (0, None), (12, 0), (11, 1)]
+
+
 def ops_for(bufwin, lvl):
     key = (bufwin, lvl)
     r = _OPS_CACHE.get(key)
     if r is None:
-        r = [op for (l, op) in _gen_ops(bufwin) if l <= lvl]
+        g = _GEN_CACHE.get(bufwin)
+        if g is None:
+            g = _GEN_CACHE[bufwin] = _gen_ops(bufwin)
+        r = [op for (l, op) in g if l <= lvl]
         if len(set(r)) != len(r):
             raise InfraError("duplicate ops for %r" % (key,))
         _OPS_CACHE[key] = r
     return r
+
+
+def precompute_ops(maxlvl):
+    """In the driver, before the workers are forked: they inherit the tables."""
+    for (off, n) in BUF_WINDOWS:
+        w = (off, N - off if n is None else n)
+        for l in range(maxlvl + 1):
+            ops_for(w, l)
 
 
 def _gen_ops(bufwin):
@@ -103,7 +120,7 @@ def _gen_ops(bufwin):
     def lv(core, narrow=False):
         return 0 if core else 1 if narrow else 2
     # windows for ffi.buffer(p + off, n); n = None: ffi.buffer(p) (size taken from the cdata's type)
-    for w in [(0, 12), (0, 0), (0, 5), (3, 5), (7, 5), (0, None), (12, 0), (11, 1)]:
+    for w in BUF_WINDOWS:
         out.append((lv(w in ((0, 12), (3, 5), (0, 0)), w in ((0, 5), (0, None))), ("buf",) + w))
     idx = _dedupe([0, -1, n - 1, n, -n, -n - 1, 3, MAXS, BIG, -BIG - 1])
     for i in idx:
@@ -598,7 +615,7 @@ class MemJournal(object):
 
 
 def _work(item):
-    kind, cfg, prefix, depth, d0 = item
+    pname, cfg, prefix, depth, d0 = item
     _COUNTS.clear()
     _CUR[0] = None
     hist._journal = MemJournal(hist._journal_path(item))
@@ -611,19 +628,22 @@ def _work(item):
     return st, dict(_COUNTS)
 
 
-def run_contained(cfgs, depth, d0, split):
-    """hist.run_parallel, except that (a) the shallow part is also executed inside pool workers (a crash
-    at depth 1 is contained and reported), and (b) a violation on one shallow history does not stop the
-    exploration below the other prefixes."""
-    total = hist.Stats()
-    counts = {}
-    crashes = []
-    samples = []
-    sd = min(split, depth)
+def run_contained(jobs, split):
+    """hist.run_parallel for several passes at once.  jobs = [(pass name, cfg, depth, d0)].  Differences:
+    (a) the shallow part (histories no longer than `split`) is also executed inside pool workers, so a crash
+    at depth 1 is contained and reported; (b) a violation on one shallow history does not stop the exploration
+    below the other prefixes; (c) the passes share the two pool start-ups (shallow stage, deep stage).
+    Returns {pass name: (Stats, class counts, crashes, samples)}."""
+    res = {}
+    for pname, cfg, depth, d0 in jobs:
+        res.setdefault(pname, (hist.Stats(), {}, [], []))
 
     def drain(items):
         done = {}
-        for item, r in pool.pmap(_work, [[it] for it in items]):
+        # a few blocks per worker (interleaved): one pipe round trip per block, not per sub-tree
+        nb = max(1, min(len(items), pool.NPROC * 4))
+        for item, r in pool.pmap(_work, [items[k::nb] for k in range(nb)]):
+            total, counts, crashes, samples = res[item[0]]
             if isinstance(r, pool.WorkerError):
                 raise InfraError(r.tb)
             if isinstance(r, pool.Crash):
@@ -635,27 +655,29 @@ def run_contained(cfgs, depth, d0, split):
                 samples.append((list(item[1]), st.samples[-1]))
             for k, v in cnt.items():
                 counts[k] = counts.get(k, 0) + v
-            done.setdefault(item[1], set()).update(h for h, info in st.violations)
+            done.setdefault((item[0], item[1]), set()).update(h for h, info in st.violations)
         return done
 
-    done = drain([("shallow", cfg, (), sd, min(d0, sd)) for cfg in cfgs])
-    if depth > sd:
-        items = []
-        for cfg in cfgs:
-            if cfg in done:
-                for p in hist.prefixes(Sys, cfg, sd):
-                    if not any(p[:k] in done[cfg] for k in range(1, len(p) + 1)):
-                        items.append(("deep", cfg, p, depth, d0))
-        _CUR[0] = None
+    done = drain([(pname, cfg, (), min(split, depth), min(d0, split, depth)) for pname, cfg, depth, d0 in jobs])
+    items = []
+    for pname, cfg, depth, d0 in jobs:
+        sd = min(split, depth)
+        if depth > sd and (pname, cfg) in done:
+            # replaying these prefixes in the driver is safe: the same executions just ran in a worker
+            for p in hist.prefixes(Sys, cfg, sd):
+                if not any(p[:k] in done[(pname, cfg)] for k in range(1, len(p) + 1)):
+                    items.append((pname, cfg, p, depth, d0))
+    _flush()
+    if items:
         drain(items)
-    return total, counts, crashes, samples
+    return res
 
 
 def _passes(ctx):
     # (name, alphabet level, max ops outside the core alphabet per history, depth, d0)
     if ctx.quick:
-        return [("full1", 3, ANY, 1, 1), ("wide2", 2, 1, 2, 2), ("core3", 0, 0, 3, 3)]
-    return [("full2", 3, 1, 2, 2), ("narrow3", 1, 1, 3, 3), ("deep", 0, 0, 5, 2)]
+        return [("full1", 3, ANY, 1, 1), ("narrow2", 1, 1, 2, 2), ("core3", 0, 0, 3, 1)]
+    return [("full2", 3, 1, 2, 2), ("narrow3", 1, 1, 3, 3), ("core3", 0, 0, 3, 3), ("deep", 0, 0, 4, 2)]
 
 
 def run(ctx):
@@ -664,9 +686,11 @@ def run(ctx):
     cov_pass = {}
     tot_states = tot_trans = 0
     maxd = 0
+    precompute_ops(max(p[1] for p in _passes(ctx)))
+    jobs = [(pname, (lvl, budget, m), depth, d0) for pname, lvl, budget, depth, d0 in _passes(ctx) for m in MEMS]
+    res = run_contained(jobs, split=1)
     for pname, lvl, budget, depth, d0 in _passes(ctx):
-        cfgs = [(lvl, budget, m) for m in MEMS]
-        st, counts, crashes, samples = run_contained(cfgs, depth, d0, split=1)
+        st, counts, crashes, samples = res[pname]
         ctx.log("pass %s: depth=%d d0=%d states=%d transitions=%d merged=%d violations=%d crashes=%d" % (
             pname, depth, d0, st.states, st.transitions, st.merged, len(st.violations), len(crashes)))
         for k, v in sorted(counts.items()):
@@ -683,7 +707,7 @@ def run(ctx):
                            "unmerged_depth_d0": d0,
                            "max_noncore_ops_per_history": "unbounded" if budget == ANY else budget,
                            "states": st.states, "transitions": st.transitions, "merged": st.merged,
-                           "replayed_op_applications": st.replayed, "configs": len(cfgs),
+                           "replayed_op_applications": st.replayed, "configs": len(MEMS),
                            "by_depth": {str(k): v for k, v in sorted(st.by_depth.items())},
                            "ops": dict(sorted(st.op_hist.items()))}
         tot_states += st.states
